@@ -168,7 +168,12 @@ func c11Verdict(text string) (string, string) {
 	if r.Method != "GET" {
 		return "invalid", ""
 	}
-	if r.Version != "HTTP/1.1" {
+	// HTTP/1.1 or later
+	var maj, min int
+	if n, err := fmt.Sscanf(r.Version, "HTTP/%d.%d", &maj, &min); n != 2 || err != nil || fmt.Sprintf("HTTP/%d.%d", maj, min) != r.Version {
+		return "invalid", ""
+	}
+	if maj < 1 || maj == 1 && min < 1 {
 		return "invalid", ""
 	}
 	if !ref.HasToken(r.Values("connection"), "upgrade") {
